@@ -49,16 +49,16 @@ func famqSystem(c *Ctx) {
 		sh.add(c, term, desc)
 		c.count([]string{"C20", "C21", "C22", "C23"}, "sys:"+key, nontrivial, desc)
 	}
-	for i := 0; i < c.pick(12, 200); i++ {
+	for i := 0; i < c.pick(12, 100); i++ {
 		add("d7")
 	}
-	for i := 0; i < c.pick(16, 300); i++ {
+	for i := 0; i < c.pick(16, 200); i++ {
 		add("starve")
 	}
-	for i := 0; i < c.pick(12, 200); i++ {
+	for i := 0; i < c.pick(12, 100); i++ {
 		add("lifecycle")
 	}
-	for i := 0; i < c.pick(100, 4000); i++ {
+	for i := 0; i < c.pick(100, 1400); i++ {
 		add("random")
 	}
 }
@@ -67,7 +67,7 @@ func famqComponents(c *Ctx) {
 	sh := c.newShard("qcomp", runnerQ, "caseQ", "mismatches", "violations")
 	sh.limit = 400
 	if c.wants("C21") {
-		for i := 0; i < c.pick(400, 8000); i++ {
+		for i := 0; i < c.pick(400, 6000); i++ {
 			term, desc, key, nontrivial := runPoolScenario(c)
 			if term == "" {
 				continue
@@ -77,7 +77,7 @@ func famqComponents(c *Ctx) {
 		}
 	}
 	if c.wants("C22", "C21") {
-		for i := 0; i < c.pick(400, 8000); i++ {
+		for i := 0; i < c.pick(400, 6000); i++ {
 			term, desc, key, nontrivial := runSlotScenario(c)
 			sh.add(c, term, desc)
 			c.count([]string{"C22", "C21"}, "slot:"+key, nontrivial, desc)
@@ -100,7 +100,7 @@ func famqCursor(c *Ctx) {
 	for i := 0; i < c.pick(40, 400); i++ {
 		add("d7")
 	}
-	for i := 0; i < c.pick(500, 12000); i++ {
+	for i := 0; i < c.pick(500, 6000); i++ {
 		add("random")
 	}
 }
